@@ -18,6 +18,7 @@ RULE = ('three Hypothesis sub-checks.  bases: abscissae in [-1,1] (arrays of 1-6
         'traceset2xy(xy2traceset(x,y),x) == yfit for every trace, == the data for exact combinations, ignore_jump differs when the jump '
         'matters, default grid spans xmin..xmax in unit steps.  Non-trivial = ncoeff >= 3 with a zero weight and (fits) a fixed parameter '
         'or (trace sets) >= 2 traces with a jump.')
+RULE += '  Also: all coefficients fixed, python-int scalar abscissae, xmin/xmax changed after a first evaluation.'
 ASSUMPTIONS = ['design matrices have condition number < 1e6 (decided on the reference side; otherwise only shapes/finite-ness are asserted)',
                'at least max(ncoeff, 2) positively weighted points (exactly ncoeff is generated on purpose; a single good point is the constant special case inherited from IDL)',
                'basis tolerance 1e-10 (1+k^2) for float64 and 3e-5 (1+k^2) for float32 input',
